@@ -352,6 +352,7 @@ func Vars(d gen.DataSpec, p *Probes) jet.VarMap {
 	})
 	vm.Set("nilfn", (func() string)(nil))
 	vm.Set("niljf", jet.Func(nil))
+	vm.Set("qf", 0.25)
 	vm.Set("uhkey", struct{ ID interface{} }{[]int{1}})
 	vm.Set("mksend", func() chan<- int { return make(chan int, 1) })
 	vm.SetWriter("nilw", nil)
